@@ -501,11 +501,23 @@ func (w *Writer) finishSection() error {
 				panic("fail on fresh block")
 			}
 		}
+
+		// Flush the last index block of this level too, so that the
+		// next level (or the footer) covers it.
+		full := len(w.index)
+		if err := w.flushBlock(); err != nil {
+			return err
+		}
+		if full <= threshold || len(w.index) >= len(idx) {
+			// Few enough blocks for the reader to scan, or index
+			// entries so large that another level would not be
+			// smaller than this one.
+			break
+		}
 	}
+	// The remaining entries describe the top level; they must not
+	// leak into the index of the next section.
 	w.index = nil
-	if err := w.flushBlock(); err != nil {
-		return err
-	}
 
 	blockStats := w.getBlockStats(typ)
 	blockStats.IndexBlocks = w.Stats.idxStats.Blocks - before
